@@ -35,6 +35,11 @@ def setup(P):
     _st['param'] = param
 
 
+def case_reset(idx):
+    # tokens are a function of the case index, so that a single case replays exactly as it ran inside its shard
+    _n[0] = idx * 1000
+
+
 def tokn():
     _n[0] += 1
     return _n[0]
